@@ -121,7 +121,8 @@ func c02Judge(c *rep.Ctx, doc string, sp model.Spec, mode string) {
 			}
 		case "json":
 			for _, it := range want {
-				if !strings.Contains(out, `"value":"`+it+`"`) {
+				enc, _ := json.Marshal(it) // (as the encoder spells it: control characters and markup escaped)
+				if !strings.Contains(out, `"value":`+string(enc)) {
 					c.Violation("C02|names-lost", fmt.Sprintf("mode=json doc=%q: item %q missing from %q", doc, it, out), len(doc), rp)
 					break
 				}
@@ -175,6 +176,39 @@ func init() {
 					}
 				})
 			}
+		}
+	}
+	// a second, smaller line alphabet (names that differ in case only, compact items whose text begins with a tab, bullets
+	// inside names, a name ending in #, lines made of control bytes or of Unicode white space only), every sequence of
+	// up to four lines
+	second := props["C02"]
+	props["C02"] = func(c *rep.Ctx) {
+		second(c)
+		u := "  "
+		alpha := []string{"- a", "- A", u + "- a", u + "- A", u + u + "- b", "\x00", u + "\x01 ", "\u3000", " \u00a0", u + "-\ta", u + "* a-b", u + "+ a * b", "# C#", "- é", u + "- É"}
+		c.Bound("second_alphabet_max_lines", "4")
+		for L := 1; L <= 4 && !c.Expired(); L++ {
+			enum.Tuples(L, len(alpha), func(t []int) {
+				if !c.Take() || c.Expired() {
+					return
+				}
+				doc := strings.Join(enum.Pick(alpha, t), "\n") + "\n"
+				sp := model.ParseSpec(doc)
+				if sp.Verdict == model.OutOfDomain {
+					return
+				}
+				c.StateN(1)
+				c.Inc("second_alphabet_documents")
+				if sp.Verdict == model.Malformed {
+					c.Nontrivial()
+				}
+				c02Judge(c, doc, sp, "text")
+				c02Judge(c, doc, sp, "walk")
+				if L <= 3 {
+					c02Judge(c, doc, sp, "json")
+					c02Judge(c, doc, sp, "text-noiter")
+				}
+			})
 		}
 	}
 	// big documents: a well-formed filler of F bytes (many small roots with distinct names) followed by every tail of up to
